@@ -172,16 +172,16 @@ type effSummary struct {
 }
 
 type versEngine struct {
-	p          *Program
-	un         *ssa.Function
-	compat     []string
-	compatOK   bool
-	verDep     map[*ssa.Function]bool
-	eff        map[*ssa.Function]*effSummary
-	undecided  []string
-	maxPaths   int
-	slimT      *types.Named
-	stT        *types.Named
+	p           *Program
+	un          *ssa.Function
+	compat      []string
+	compatOK    bool
+	verDep      map[*ssa.Function]bool
+	eff         map[*ssa.Function]*effSummary
+	undecided   []string
+	maxPaths    int
+	slimT       *types.Named
+	stT         *types.Named
 	errIncompat *ssa.Global
 }
 
